@@ -5,7 +5,7 @@ use bytes::Bytes;
 
 use crate::{
     crypto::ecc_curve::{ecc_curve_from_oid, ECCCurve},
-    errors::{ensure_eq, format_err, Result},
+    errors::{ensure, ensure_eq, format_err, Result},
     parsing_reader::BufReadParsing,
     ser::Serialize,
     types::Mpi,
@@ -49,7 +49,10 @@ impl EddsaLegacyPublicParams {
             }
             _ => {
                 let opaque = if let Some(pub_len) = len {
-                    i.take_bytes(pub_len)?.freeze()
+                    // `pub_len` counts the whole public key material, including the curve OID field read above
+                    let consumed = 1 + usize::from(curve_len);
+                    ensure!(pub_len >= consumed, "invalid public key length");
+                    i.take_bytes(pub_len - consumed)?.freeze()
                 } else {
                     // Read as Mpi, not to consume the secret parameters in secret key packets
                     let p = Mpi::try_from_reader(&mut i)?;
